@@ -156,6 +156,10 @@ class Graph:
             return [tgt["i"], "ptr"]
         vias = VIA_FF if tgt["kind"] == "f" else VIA_FD
         via = vias[v % len(vias)]
+        if v % 9 == 8:
+            # A relocation that needs no value (R_X86_64_NONE, as emitted for e.g. personality/marker
+            # references): a pure GC edge, nothing is called or read through it at run time.
+            return [tgt["i"], "none"]
         if pic and via in NONPIC_VIAS:
             via = vias[v % 2]
         if self.mode == "shared" and tgt["bind"] == "g" and via in ("lea", "leacall"):
@@ -212,8 +216,9 @@ class Graph:
             visited.add(i)
             nd = self.nodes[i]
             out.append(f"{i:08x} {0xF if nd['kind'] == 'f' else 0xD:016x}\n")
-            for to, _ in nd["edges"]:
-                visit(to)
+            for to, via in nd["edges"]:
+                if via != "none":
+                    visit(to)
             if nd["ss"] >= 0:
                 for m in self.set_members(nd["ss"]):
                     visit(m["i"])
@@ -228,8 +233,9 @@ class Graph:
             visit(i)
         for i in arr("init"):
             visit(i)
-        for to, _ in self.main["edges"]:
-            visit(to)
+        for to, via in self.main["edges"]:
+            if via != "none":
+                visit(to)
         for i in reversed(arr("fini")):
             visit(i)
         return "".join(out)
@@ -246,6 +252,8 @@ class Graph:
     def emit_edge(self, e):
         to, via = e
         t = f"n{to}"
+        if via == "none":
+            return f"    .reloc ., R_X86_64_NONE, {t}\n"
         if via == "call":
             return f"    call {t}\n"
         if via == "gotcall":
